@@ -240,33 +240,48 @@ int main(int argc, char **argv)
     f << "hello history";
   }
   fx.goodkey = "ABEiM0RVZneImaq7zN3u/w==";
-  // fixtures are produced in a child so that the parent's process state stays pristine
-  int pfd[2];
-  if (pipe(pfd))
-    return 3;
-  if (fork() == 0)
+  // every fixture is produced in a child of its own (one operation per process: the parent's state stays pristine and
+  // the fixtures do not depend on how operations in one process influence each other - that is what is being checked)
+  auto make_fixture = [&](int which, std::vector<u8_t> &dst) -> bool
   {
-    OpResult a = wv_encrypt(fx.PA, fx.keyA, 1, 0, fx.seed, 1), b = wv_encrypt(fx.PB, fx.keyB, 2, 1, fx.seed, 2), c = wv_encrypt(fx.PC, fx.keyC, 4, 2, fx.seed, 4);
-    unsigned la = a.out.size(), lb = b.out.size(), lc = c.out.size();
-    if (write(pfd[1], &la, 4) + write(pfd[1], a.out.data(), la) + write(pfd[1], &lb, 4) + write(pfd[1], b.out.data(), lb) + write(pfd[1], &lc, 4) + write(pfd[1], c.out.data(), lc) < 0)
-      _exit(1);
-    _exit(0);
-  }
-  {
-    unsigned la = 0, lb = 0, lc = 0;
-    if (read(pfd[0], &la, 4) != 4)
-      return 3;
-    fx.fileA.resize(la);
-    if (read(pfd[0], fx.fileA.data(), la) != (ssize_t)la || read(pfd[0], &lb, 4) != 4)
-      return 3;
-    fx.fileB.resize(lb);
-    if (read(pfd[0], fx.fileB.data(), lb) != (ssize_t)lb || read(pfd[0], &lc, 4) != 4)
-      return 3;
-    fx.fileC.resize(lc);
-    if (read(pfd[0], fx.fileC.data(), lc) != (ssize_t)lc)
-      return 3;
+    int pfd[2];
+    if (pipe(pfd))
+      return false;
+    pid_t pid = fork();
+    if (pid == 0)
+    {
+      alarm(30);
+      OpResult a = which == 0 ? wv_encrypt(fx.PA, fx.keyA, 1, 0, fx.seed, 1) : which == 1 ? wv_encrypt(fx.PB, fx.keyB, 2, 1, fx.seed, 2) : wv_encrypt(fx.PC, fx.keyC, 4, 2, fx.seed, 4);
+      unsigned la = a.out.size();
+      if (write(pfd[1], &la, 4) + write(pfd[1], a.out.data(), la) < 0)
+        _exit(1);
+      _exit(0);
+    }
+    close(pfd[1]);
+    unsigned la = 0;
+    bool ok = read(pfd[0], &la, 4) == 4 && la < (1u << 20);
+    if (ok)
+    {
+      dst.resize(la);
+      size_t got = 0;
+      while (got < la)
+      {
+        ssize_t n = read(pfd[0], dst.data() + got, la - got);
+        if (n <= 0)
+          break;
+        got += (size_t)n;
+      }
+      ok = got == la;
+    }
+    close(pfd[0]);
     int st;
-    wait(&st);
+    waitpid(pid, &st, 0);
+    return ok && WIFEXITED(st) && WEXITSTATUS(st) == 0;
+  };
+  if (!make_fixture(0, fx.fileA) || !make_fixture(1, fx.fileB) || !make_fixture(2, fx.fileC) || fx.fileA.size() < 80 || fx.fileB.size() < 80 || fx.fileC.size() < 120)
+  {
+    Ev("nofixture").i("id", 0).emit(wv_out);
+    return 0;
   }
   fx.tamperedB = fx.fileB;
   fx.tamperedB[fx.tamperedB.size() - 3] ^= 0x40;
@@ -309,12 +324,15 @@ int main(int argc, char **argv)
     if (ops.empty())
       continue;
     int detail = 0;
+    // a tree on which operations hang would otherwise cost one time limit per history: after a few histories that did
+    // not run to completion the rest is not run (the ones recorded are the verdict; "skipped" ones are not judged)
+    static int n_abnormal = 0;
     std::string opsj = "[";
     for (size_t i = 0; i < ops.size(); ++i)
       opsj += (i ? "," : "") + std::to_string(ops[i]);
     opsj += "]";
-    int how = wv_guarded([&]()
-                         {
+    auto body = [&]()
+    {
       std::string rs = "[";
       for (size_t i = 0; i < ops.size(); ++i)
       {
@@ -336,10 +354,13 @@ int main(int argc, char **argv)
         rs += (i ? "," : "") + tmp;
       }
       rs += "]";
-      Ev("hist").i("id", id).raw("ops", opsj).raw("results", rs).str("how", "ok").emit(wv_out); },
-                         60, &detail);
+      Ev("hist").i("id", id).raw("ops", opsj).raw("results", rs).str("how", "ok").emit(wv_out); };
+    int how = n_abnormal >= 6 ? 3 : wv_guarded(body, 25, &detail);
     if (how)
-      Ev("hist").i("id", id).raw("ops", opsj).raw("results", "[]").str("how", wv_how[how]).emit(wv_out);
+    {
+      Ev("hist").i("id", id).raw("ops", opsj).raw("results", "[]").str("how", n_abnormal >= 6 ? "skipped" : wv_how[how]).emit(wv_out);
+      ++n_abnormal;
+    }
     ++id;
   }
   std::string cmd = "rm -rf " + fx.dir;
